@@ -161,6 +161,19 @@ Value(a) == [src |-> a.src, kind |-> Member(a.kind), val |-> Content(a.kind)]
 RCode(a) == a.src * 10 + (IF Member(a.kind) = "inline" THEN 1 ELSE 2)
 Shipped(a) == IF Content(a.kind) = "text" THEN {RCode(a)} ELSE {}
 
+(* ---- asset files that cannot be loaded: fault, then retry ---------------------- *)
+\* miss: the set of <<class, pair>> whose `<pair>_file` does not exist at the moment of an access (files only
+\* ever appear during a history, so a file that is missing now has never been loaded).  What an access answers
+\* is determined by the hierarchy and by the files as they are NOW - never by earlier (failed) accesses:
+\*   * `C.<p>` whose nearest definition is a `<p>_file` that is missing cannot have the content of that file
+\*     and must not pretend that nobody defines the pair: it raises (every time, as long as the file is missing);
+\*   * any access of a class that has a missing file somewhere in its MRO MAY raise (the property does not say
+\*     whether the files of a class are loaded one by one or together) - or answer, then with the regular value;
+\*   * every other access answers with the regular value; once all files exist nothing raises any more.
+FileMissing(K, c, p, miss) == LET a == Attr(K, c, p) IN Member(a.kind) = "file" /\ <<a.src, p>> \in miss
+MustRaise(K, c, a, miss) == a \in Pairs /\ FileMissing(K, c, a, miss)
+MayRaise(K, c, miss) == \E m \in miss : m[1] \in Range(Mro(K, c).seq) /\ Member(Kind(K, m[1], m[2])) = "file"
+
 (* ---- the memo machine: first accesses in any order -------------------------- *)
 \* Component.media is computed on first access and memoised per class; resolving a class
 \* first resolves the selected bases that are not memoised yet, then combines *their memo
